@@ -1,7 +1,7 @@
 PROP = {
     "id": "C08",
     "theorem_modules": ["Verif.Properties.C08"],
-    "min_theorems": 20,
+    "min_theorems": 21,
     "required_theorems": [
         "Verif.Properties.C08.rules_unchanged",
         "Verif.Properties.C08.refl",
@@ -21,6 +21,7 @@ PROP = {
         "Verif.Properties.C08.trans_witness_contravariant",
         "Verif.Properties.C08.trans_checked_partial",
         "Verif.Properties.C08.runtime_agrees_kindstable_partial",
+        "Verif.Properties.C08.equal_intersection_witness",
     ],
     "gen": [["vtool", "gen-rules"]],
     "tool_files": ["tool_rules.go"],
@@ -60,7 +61,7 @@ PROP = {
                   "model. The interpreter follows the code generators' statement-sequence reading of `or` (a plain boolean reading of "
                   "rules.yaml's IntersectionType rule would accept almost everything). Observed, not a property violation: `I <: {I}` is false "
                   "in every Go relation (an interface is not below the intersection of itself), the model agrees.",
-    "assumptions": ["types are in canonical form (sorted entitlement / conformance / intersection sets) so Equal is structural equality",
+    "assumptions": ["types are in canonical form (sorted entitlement / conformance / intersection sets) so static Equal is structural equality; sema Equal is `semaEq` (structural except effective-set comparison of intersections), both compared with Go on every pair",
                     "fuel 40*(|a|+|b|)+40 suffices: now a theorem (`struct_agree` / `fuel_stable`: any fuel from that bound upwards gives the same answer on well-formed types)"],
     "trusted_base": ["rule interpreter Verif.Model.Types.Subtype validated by stream types", "vtool gen-rules (uses /repo's own rules parser)",
                      "Go harness cmd/vharness/stream_types.go", "driver Drv/Types.lean"],
